@@ -415,6 +415,10 @@ def micro_c07_scenario(r) -> Dict[str, Any]:
         for c in [sc["lend"]["default"]] + list(sc["lend"]["per_symbol"].values()):
             c["req"] = r.choice(["0.25", "0.5", "1"])
             c["interest_symbol"] = "USD"
+        # another loan in the base symbol is already open when the rollbacks happen (it must not be touched by them)
+        first_key = sorted(actions, key=lambda k: int(k.split("@")[1]))[0]
+        actions[first_key].insert(0, {"op": "loan", "symbol": "BTC", "amount": r.choice(["0.5000", "0.0100", "1.0000"]),
+                                      "boundary": False})
         if r.random() < 0.4:
             # the second loan fails for a reason other than funds: the quote symbol cannot be borrowed at all
             sc["lend"]["default"] = None
